@@ -171,18 +171,18 @@ func externKey(fn *types.Func) string {
 
 // Obligation is one proof obligation = one SMT query that must be unsat.
 type Obligation struct {
-	Name     string   `json:"name"`
-	Func     string   `json:"func"`
-	Kind     string   `json:"kind"`
-	Props    []string `json:"props,omitempty"`
-	Clause   string   `json:"clause,omitempty"`
-	Pos      string   `json:"pos,omitempty"`
-	SMT      string   `json:"-"`
-	MustFail bool     `json:"must_fail,omitempty"` // vacuity guard: expected sat/unknown, never unsat
-	Result   string   `json:"result,omitempty"`
-	Solver   string   `json:"solver,omitempty"`
-	TimeS    float64  `json:"time_s,omitempty"`
-	Detail   string   `json:"detail,omitempty"`
-	Bytes    int      `json:"smt_bytes,omitempty"`
+	Name      string   `json:"name"`
+	Func      string   `json:"func"`
+	Kind      string   `json:"kind"`
+	Props     []string `json:"props,omitempty"`
+	Clause    string   `json:"clause,omitempty"`
+	Pos       string   `json:"pos,omitempty"`
+	SMT       string   `json:"-"`
+	MustFail  bool     `json:"must_fail,omitempty"` // vacuity guard: expected sat/unknown, never unsat
+	Result    string   `json:"result,omitempty"`
+	Solver    string   `json:"solver,omitempty"`
+	TimeS     float64  `json:"time_s,omitempty"`
+	Detail    string   `json:"detail,omitempty"`
+	Bytes     int      `json:"smt_bytes,omitempty"`
 	ModelVars []string `json:"-"`
 }
